@@ -185,6 +185,11 @@ def fold_seq(e):
                     return S.call(nm, *[S.lift(v) for v in vals])
         if nm == "len" and len(x.args) == 2 and _seq_items(x.args[1]) is not None:
             return S.lift(len(_seq_items(x.args[1])))
+        if nm in ("numpy.prod", "np.prod") and len(x.args) == 2 and _seq_items(x.args[1]) is not None and all(as_int(i) is not None for i in _seq_items(x.args[1])):
+            p_ = 1
+            for i in _seq_items(x.args[1]):
+                p_ *= as_int(i)
+            return S.lift(p_)
         if nm == "getitem" and len(x.args) == 3 and _seq_items(x.args[1]) is not None and as_int(x.args[2]) is not None:
             items, i = _seq_items(x.args[1]), as_int(x.args[2])
             if -len(items) <= i < len(items):
